@@ -332,7 +332,8 @@ Lemma accepts_older : forall c now st v,
 Proof.
   intros c now st v K EN EP EV Hnow. apply migrate_ok_iff. rewrite accepted_single by exact K.
   split; [left; symmetry; exact EN|]. exists v. repeat split; try assumption.
-  unfold extra. destruct (kind_of c); try exact I; try congruence. intros _ _. exact Hnow.
+  unfold extra. destruct (kind_of c); try exact I; try congruence.
+  all: try (intros _ _; exact Hnow).
 Qed.
 
 Lemma own_names :
